@@ -139,6 +139,11 @@ def handle : Handler := fun op inp =>
       | d => .error s!"discipline {d}"
   | "procs.sortKeys" => some do
       return jNats (sortKeys (← natList (← field inp "keys")))
+  | "procs.chunksOf" => some do
+      -- the row iterator with the observed step as a parameter
+      let n ← asNat (← field inp "nRows")
+      let st ← asNat (← field inp "step")
+      return jList (jPair jNat jNat) (chunks n st)
   | "procs.chunks" => some do
       let n ← asNat (← field inp "nRows")
       let p ← asNat (← field inp "nProc")
